@@ -24,7 +24,7 @@ lines.append("Each change was confirmed here before being kept: patch applies to
              "worktree with the change (`tools/eval_seed.py`). Files: `seeded/<id>/{patch.diff, demo.py, meta.json}`.\n")
 lines.append("| seed | what was changed | needs | confirmed | quick check | tags that caught it |")
 lines.append("|---|---|---|---|---|---|")
-det = tot = 0
+det = tot = det_other = 0
 for d in sorted(glob.glob(os.path.join(V, "seeded", "C*"))):
     try:
         m = json.load(open(os.path.join(d, "meta.json")))
@@ -32,14 +32,20 @@ for d in sorted(glob.glob(os.path.join(V, "seeded", "C*"))):
         continue
     r = m.get("verification_of_seed", {})
     tot += 1
+    also = {k: v for k, v in (r.get("also") or {}).items() if v.get("detected")}
     det += bool(r.get("detected"))
+    det_other += bool(also) and not r.get("detected")
     summ = re.sub(r"\s+", " ", str(m.get("summary", "")))[:230].replace("|", "\\|")
     needs = re.sub(r"\s+", " ", str(m.get("needs", "")))[:200].replace("|", "\\|")
     lines.append("| %s | %s | %s | %s | %s (%ss) | %s |" % (
         os.path.basename(d), summ, needs, "yes" if r.get("confirmed") else "NO",
-        "DETECTED" if r.get("detected") else "missed", r.get("check_wall_s", "?"),
-        ", ".join("`%s`" % t for t in (r.get("check_tags") or [])[:4])))
-lines.append("\n%d of %d seeded changes are detected by the quick tier of the final checks.\n" % (det, tot))
+        "DETECTED" if r.get("detected") else ("missed by %s, DETECTED by %s" % (os.path.basename(d)[:3], "+".join(sorted(also)))
+                                               if also else "missed"), r.get("check_wall_s", "?"),
+        ", ".join("`%s`" % t for t in (r.get("check_tags") or [])[:4]) +
+        "".join("; also %s: %s" % (k, ", ".join("`%s`" % t for t in v.get("tags", [])[:3])) for k, v in sorted(also.items()))))
+lines.append("\n%d of %d seeded changes are detected by the quick tier of the check of the property they were seeded for; %d more "
+             "leave that check quiet but are reported by the check of a neighbouring property whose statement they also break "
+             "(named in the row); %d are missed.\n" % (det, tot, det_other, tot - det - det_other))
 text = "\n".join(lines)
 p = os.path.join(V, "DESIGN.md")
 s = open(p).read()
